@@ -604,4 +604,40 @@ theorem val_pos_of_nonzero (x : BigNat) (hi : MantInv x) (hnz : ¬ (x.digits.len
     simp only [bigBase] at *
     omega
 
+/-! ### first_digit stays below the base through divisions -/
+
+theorem div_first_lt (x : BigNat) (dv : Nat) (hdv : 0 < dv) (hf : x.first < bigBase) : (bignat_div x dv).first < bigBase := by
+  cases hx : x.digits with
+  | nil =>
+    simp only [bignat_div, hx]
+    exact lt_of_le_of_lt (Nat.div_le_self _ _) hf
+  | cons d0 rest =>
+    simp only [bignat_div, hx]
+    rw [Nat.div_lt_iff_lt_mul hdv]
+    have hr : ((divDigits dv rest).2 * bigBase + d0) % dv < dv := Nat.mod_lt _ hdv
+    generalize ((divDigits dv rest).2 * bigBase + d0) % dv = r0 at *
+    have : (r0 + 1) * bigBase ≤ dv * bigBase := Nat.mul_le_mul_right _ hr
+    rw [Nat.mul_comm bigBase dv]
+    simp only [bigBase] at *
+    omega
+
+theorem iter_div_first_lt (dv : Nat) (hdv : 0 < dv) (k : Nat) (x : BigNat) (hf : x.first < bigBase) :
+    (iter (fun m => bignat_div m dv) k x).first < bigBase := by
+  induction k generalizing x with
+  | zero => simpa [iter] using hf
+  | succ k ih => rw [iter_succ]; exact ih _ (div_first_lt x dv hdv hf)
+
+theorem scaleNeg_first_lt (mant : BigNat) (base a : Nat) (hb1 : 1 ≤ base) (_hb : base ≤ 36) (_hi : MantInv mant) :
+    (scaleNeg mant base a).first < bigBase := by
+  unfold scaleNeg
+  have p4 : 0 < base * base * base * base := by positivity
+  have p2 : 0 < base * base := by positivity
+  apply iter_div_first_lt _ hb1
+  apply iter_div_first_lt _ p2
+  apply iter_div_first_lt _ p4
+  have hs : shamtBase + a / shamtDiv ≠ 0 := by
+    have : 2 ≤ shamtBase + a / shamtDiv := le_trans (by decide : 2 ≤ shamtBase) (Nat.le_add_right _ _)
+    omega
+  simp [bignat_lshift_n, hs, bigBase_pos]
+
 end JanetModel.Strtod
